@@ -6,7 +6,7 @@ LEVEL = "model_checking"
 
 def run(tier, seed, limit=0):
     chk = engine.Check("C17", tier, seed)
-    scs = fam_tree.family_T(tier, seed, tag="T17") + fam_tree.family_cb_special(tier, seed)
+    scs = fam_tree.family_T(tier, seed, tag="T17") + fam_tree.family_cb_special(tier, seed) + fam_tree.family_cb_nothing_to_solve(tier, seed)
     # random-size lists of objects with hooks: every exposed element is called once, before and after the solve, also when the
     # solved size shrinks and grows again; an element's pre_randomize assigns a field its own block reads
     scs += fam_list.family_objlist_randsz(tier, seed, n=6 if tier == "quick" else 60, cb_all=True, tag="T17/objrs")
